@@ -311,6 +311,8 @@ def order_sets(ctx, fi, pool):
     if ctx.quick:
         sets = sets if len(sets) <= 160 else [(i,) for i in range(n)] + rng.sample(sets[n:], 160 - n)
         triples = rng.sample(triples, min(len(triples), 50))
+    else:
+        triples = rng.sample(triples, min(len(triples), 400))
     sets += triples
     # repeated application of one modifier (re-decoration with the same decorator)
     sets += [(i, i) for i in range(0, n, 3)]
@@ -629,7 +631,7 @@ def histories(ctx):
     out = []
     full = {'pok': 4, 'func': 3, 'fwrap': 3, 'swrap': 3, 'wwrap': 3}
     if not ctx.quick:
-        full = {'pok': 5, 'func': 4, 'fwrap': 4, 'swrap': 4, 'wwrap': 4}
+        full = {'pok': 4, 'func': 4, 'fwrap': 3, 'swrap': 3, 'wwrap': 3}
     for kind in HKINDS:
         for L in range(1, full[kind] + 1):
             for h in itertools.product(range(n), repeat=L):
@@ -724,10 +726,10 @@ def run(ctx, rep):
     msg = posoargs_self_scenario()
     if msg:
         rep.violation('C18:posoargs-self-rebind', msg, {'part': 'posoargs-self'})
-    rep.exhaustive = True
+    rep.exhaustive = not ctx.quick
     rep.coverage['exhaustive_note'] = (
         'histories: all sequences up to the per-kind full length (see histories_by_length) plus seeded samples up to '
-        'length 6; order: all singletons/pairs (sampled in quick when > 160) and sampled triples per function')
+        'length 6; order: all singletons/pairs (sampled in quick when > 160) and sampled triples per function (50 quick / 400 thorough)')
 
 
 # ----------------------------------------------------------------- replay
